@@ -476,6 +476,7 @@ def run(root):
         except Untranslatable as ex:
             failed.append((lean_name, str(ex)))
     vtext, vdone, vfailed = run_views(root, mtable, ftable)
+    run.tables = (mtable, ftable)      # which callees exist in Gen/Core.lean on this run (used by T12)
     text = ("-- GENERATED by translate/t2.py from /repo/src — do not edit\nimport Matreex.Prelude\n"
             "open Matreex\nnamespace Matreex.Gen\n\n" + "\n".join(out) + "\n" + vtext + "\nend Matreex.Gen\n")
     return text, done + vdone, failed + vfailed
@@ -682,10 +683,12 @@ if __name__ == "__main__":
     odest = os.path.join(os.path.dirname(dest), "OverwriteGen.lean")
     if not os.path.exists(odest) or open(odest).read() != otext:
         open(odest, "w").write(otext); changed = True
-    import t7, t8, t9, t10
+    import t7, t8, t9, t10, t11, t12, t13, t14
     more_done, more_failed = [], []
     for text_done_failed, fname in ((t7.run_eq(root), "T7Gen.lean"), (t8.run_t8(root, done + sdone), "T8Gen.lean"),
-                                    (t9.run_t9(root), "T9Gen.lean"), (t10.run_t10(root), "T10Gen.lean")):
+                                    (t9.run_t9(root), "T9Gen.lean"), (t10.run_t10(root), "T10Gen.lean"),
+                                    (t11.run_t11(root), "T11Gen.lean"), (t12.run_t12(root, run.tables), "T12Gen.lean"),
+                                    (t13.run_t13(root, done + sdone), "T13Gen.lean"), (t14.run_t14(root), "T14Gen.lean")):
         xtext, xdone, xfailed = text_done_failed
         xdest = os.path.join(os.path.dirname(dest), fname)
         if not os.path.exists(xdest) or open(xdest).read() != xtext:
